@@ -25,6 +25,8 @@ def vec_expr(flav, n, elem, alloc, st):
         return "amc::SmallVector<%s, %d, %s, %s>" % (elem, n, alloc, st)
     if flav == "f":
         return "amc::FixedCapacityVector<%s, %d>" % (elem, n)
+    if flav == "fu":  # the growing policy SmallSet uses for its inline container: no capacity check (the generators stay within N)
+        return "amc::FixedCapacityVector<%s, %d, amc::vec::UncheckedGrowingPolicy>" % (elem, n)
     raise ValueError(flav)
 
 
@@ -35,10 +37,11 @@ class VCfg:
 
     def source(self):
         e = ELEMS[self.elem]
-        a = alloc_expr(self.alloc, e) if self.flav != "f" else "amc::vec::EmptyAlloc"
+        fixed = self.flav in ("f", "fu")
+        a = alloc_expr(self.alloc, e) if not fixed else "amc::vec::EmptyAlloc"
         v = vec_expr(self.flav, self.n, e, a, self.st)
-        pa = a if self.flav != "f" else alloc_expr("basic", e)
-        pst = self.st if self.flav != "f" else "uint32_t"
+        pa = a if not fixed else alloc_expr("basic", e)
+        pst = self.st if not fixed else "uint32_t"
         p = self.partner
         if p == "v":
             v2 = vec_expr("v", 0, e, pa, pst)
@@ -71,11 +74,11 @@ class VCfg:
 
     @property
     def instr_alloc(self):
-        return self.flav != "f" and self.alloc in ("basic", "exact", "realloc")
+        return self.flav not in ("f", "fu") and self.alloc in ("basic", "exact", "realloc")
 
     @property
     def inline_type(self):
-        return self.flav in ("s", "f")
+        return self.flav in ("s", "f", "fu")
 
 
 QUICK = [
@@ -112,6 +115,8 @@ QUICK = [
     VCfg("v", 0, "int", "realloc", "uint16_t", "s3"),
     # C++20: operator<=>, erase / erase_if
     VCfg("s", 3, "NTR", "basic", "uint32_t", "v", std="c++20"),
+    # FixedCapacityVector with the unchecked growing policy (what SmallSet builds on)
+    VCfg("fu", 4, "NTR", "none", "uint8_t", "s3"),
     # C++14: the containers run on the pre-C++17 emulations of the memory algorithms (amc/memory.hpp) under the full set of monitors
     VCfg("s", 3, "TC4", "amc", "uint32_t", "v", std="c++14"),
     VCfg("v", 0, "NTR", "basic", "uint16_t", "s3", std="c++14"),
